@@ -17,6 +17,8 @@ Automaton: `wfOk_iff_spec` — FULL, both directions, all traces: `wfRun` accept
   class (`Violates`, Spec.lean); `wfRun_popEmpty_spec` is its instance for `popEmpty`.
   `wf_time_nondecreasing`, `wf_pop_balanced`, `wf_no_use_after_destroy`, `wfStep_time`: the earlier soundness statements
   at the level of the automaton state (kept unchanged).
+  `balancedOn_iff`, `destroy_balanced_spec`: push / pop balance when a container goes away — the driver's test at a
+  PajeDestroyContainer (and at the end of the trace) holds iff every state type of that container has depth 0 on the trace.
 Helper lemmas of the automaton part: Lemmas.lean.
 -/
 namespace SgVerif.C47
@@ -297,6 +299,48 @@ theorem wfRun_popEmpty_spec (ls : List Line) (h : wfRun {} ls = .error .popEmpty
   obtain ⟨pre, l, post, e1, hwf, ⟨ts, t, c, e2, e3⟩, _⟩ := wfRun_error_spec ls .popEmpty h
   subst e2
   exact ⟨pre, ts, t, c, post, e1, hwf, e3⟩
+
+/-! ### push / pop balance when a container goes away -/
+
+theorem balancedOn_iff (d : List ((Nat × Nat) × Nat)) (c : Nat) :
+    balancedOn d c = true ↔ ∀ t, getDepth d (c, t) = 0 := by
+  constructor
+  · intro h t
+    cases hf : d.find? (·.1 == (c, t)) with
+    | none => simp [getDepth, hf]
+    | some x =>
+      have hx : x ∈ d := List.mem_of_find?_eq_some hf
+      have hk : x.1 = (c, t) := by simpa using List.find?_some hf
+      have h1 := (List.all_eq_true.mp h) x hx
+      have h2 : getDepth d (c, t) = x.2 := by simp [getDepth, hf]
+      rw [hk] at h1
+      simp at h1
+      rw [h2] at h1 ⊢
+      exact h1
+  · intro h
+    apply List.all_eq_true.mpr
+    intro x _
+    by_cases hc : x.1.1 = c
+    · have h1 := h x.1.2
+      have hk : (c, x.1.2) = x.1 := by rw [← hc]
+      rw [hk] at h1
+      simp [h1]
+    · simp [hc]
+
+/-- **balance at destruction / at the end, read on the trace**: after an accepted trace `ls`, the driver's test
+`balancedOn s.depth c` holds iff every state type of container `c` has push depth 0 according to the lines of `ls`
+(`depthOf`: the fold push +1, pop −1, set → max 1, reset → 0 of Spec.lean).  The driver evaluates it on the lines BEFORE each
+PajeDestroyContainer of `c`, and for every created container at the end of the trace. -/
+theorem destroy_balanced_spec (ls : List Line) (s : WF) (h : wfRun {} ls = .ok s) (c : Nat) :
+    balancedOn s.depth c = true ↔ ∀ t, depthOf ls (c, t) = 0 := by
+  have hd := (wfRun_state_spec ls s h).2.2.2.2.2.2
+  rw [balancedOn_iff]
+  constructor
+  · intro h1 t; rw [← hd]; exact h1 t
+  · intro h1 t; rw [hd]; exact h1 t
+
+/-- a push that is never popped is seen: container 5 still has one state pushed, container 6 has none -/
+example : balancedOn [((5, 9), 1), ((6, 9), 0)] 5 = false ∧ balancedOn [((5, 9), 1), ((6, 9), 0)] 6 = true := by decide
 
 /-! ### non-vacuity -/
 example : okOps { rbuf := [], out := [] } [.insert 5, .insert 3, .insert 9, .dump false 4, .insert 4, .dump true 9] := by
